@@ -36,8 +36,8 @@ PROP = "C07"
 EXCLUDE = set() if os.environ.get("C07_EXCLUDE") == "none" else {"same-element-siblings", "nested-call-indices"}
 SIBLING_BUCKET = "panic.two_args_below_one_array_element"
 NESTED_IDX_BUCKET = "value.mismatch.two_call_indices_in_one_place"
-CALL_INDEX_PCT = 50        # an argument place with subscripts gets a call as index
-COMPREHENSION_PCT = 35     # a call statement is the element expression of an array comprehension
+CALL_INDEX_PCT = 65        # an argument place with subscripts gets a call as index
+COMPREHENSION_PCT = 40     # a call statement is the element expression of an array comprehension
 CASES_PER_PROGRAM = 12
 
 HEADER = """from guppylang import guppy
@@ -351,7 +351,7 @@ class Gen:
         self.r.shuffle(cands)
         # prefer the highest level available (nested borrows), then anything
         cands.sort(key=lambda f: -f["level"] if self.chance(60) else 0)
-        for f in cands[:6]:
+        for f in (cands if need_ret else cands[:6]):
             taken = list(taken0)
             places, callees = [], [f["name"]]
             ok = True
@@ -471,7 +471,7 @@ class Gen:
         params = [(f"p{n}", self.pick(pool)) for n in range(np_)]
         if np_ == 2 and self.chance(50):
             params[1] = ("p1", params[0][1])  # two values of one type (can be exchanged as a whole)
-        ret = self.chance(40)
+        ret = self.chance(50)
         body = [self.stmt(params, "fn", level) for _ in range(self.r.randrange(2, 5))]
         if level > 0 and not any(s.get("callee") or s.get("callees") for s in body):
             c = self.stmt_call(params, "fn", level)
